@@ -677,7 +677,10 @@ def main(argv):
     if len(cases) < (1 if replay else 5000):
         raise MachineryError("too few cases enumerated")
     items = list(enumerate(cases))
-    round_size = 120000
+    round_size = 64000
+    # 16 single-worker TLC shards run at once: keep each JVM small (the default heap limit is a quarter of
+    # the machine's memory per JVM); tlc.run hands the environment on to the JVM
+    os.environ.setdefault("JAVA_TOOL_OPTIONS", "-Xmx2500m")
     states, wall, total, nrej = 0, 0.0, 0, 0
     byop, byvis, byclause, bydev, raised, unattributed = {}, {}, {}, {}, {}, {}
     stats, samples = {}, []
